@@ -90,3 +90,42 @@ extern "C" void h_c02c_fcgi_safety()
     if (ok) WITNESS("accepted"); else WITNESS("rejected");
     VERIF_END();
 }
+
+// C01.d / C02.d: FastCGI record reassembly from the read cache (fastcgi::non_blocking_read_record):
+// for arbitrary cache contents and cursors, a record is taken only when header, content and padding
+// are all present; then exactly the content bytes are appended to body_, the padding is skipped and
+// the cursors stay inside the cache; otherwise nothing changes.
+extern "C" void h_c01d_record_reassembly()
+{
+    const unsigned C = 16;
+    fastcgi *s = raw_fcgi(0);
+    new (&s->cache_) std::vector<char>(C);
+    for (unsigned i = 0; i < C; i++) s->cache_[i] = (char)nondet_u8();
+    unsigned st = nondet_u8(), en = nondet_u8();
+    ASSUME(st <= en && en <= C);
+    s->cache_start_ = st; s->cache_end_ = en;
+    unsigned cur = verif_param(0);                    // bytes already in body_
+    s->body_.resize(cur);
+    unsigned char b0 = nondet_u8(), b1 = nondet_u8();
+    if (cur > 0) s->body_[0] = (char)b0;
+    if (cur > 1) s->body_[1] = (char)b1;
+    bool r = s->non_blocking_read_record();
+    unsigned avail = en - st;
+    unsigned cl = 0, pl = 0;
+    if (avail >= 8) { cl = ((unsigned)(unsigned char)s->cache_[st + 4] << 8) | (unsigned char)s->cache_[st + 5]; pl = (unsigned char)s->cache_[st + 6]; }
+    bool complete = avail >= 8 && avail >= 8 + cl + pl;
+    CHECKM(r == complete, "record taken although header+content+padding are not all in the cache (or refused although they are)");
+    if (r) {
+        CHECKM(s->cache_start_ == st + 8 + cl + pl && s->cache_start_ <= s->cache_end_ && s->cache_end_ == en, "cache cursors wrong after taking a record");
+        CHECKM(s->body_.size() == cur + cl, "body_ did not grow by exactly the content length");
+        for (unsigned i = 0; i < cl && i < 8; i++) CHECKM(s->body_[cur + i] == s->cache_[st + 8 + i], "content bytes differ");
+        CHECKM(s->header_.content_length == cl && s->header_.padding_length == pl, "header_ differs from the record header");
+        WITNESS("record taken");
+        if (pl > 0 && cl > 0) WITNESS("with padding");
+    } else {
+        CHECKM(s->cache_start_ == st && s->cache_end_ == en && s->body_.size() == cur, "state changed although no record was taken");
+        WITNESS("incomplete");
+    }
+    if (cur > 0) CHECKM(s->body_[0] == (char)b0, "earlier body bytes changed");
+    VERIF_END();
+}
